@@ -27,10 +27,12 @@ use crate::codec::assert::insufficient_data;
 use crate::codec::family::Family;
 use crate::common::NumStdDev;
 use crate::error::Error;
+use crate::hll::KEY_BITS_26;
 use crate::hll::estimator::HipEstimator;
 use crate::hll::get_slot;
 use crate::hll::get_value;
 use crate::hll::pack_coupon;
+use crate::hll::serialization::COMPACT_FLAG_MASK;
 use crate::hll::serialization::COUPON_SIZE_BYTES;
 use crate::hll::serialization::CUR_MODE_HLL;
 use crate::hll::serialization::HLL_PREAMBLE_SIZE;
@@ -311,7 +313,8 @@ impl Array4 {
         mut cursor: SketchSlice,
         cur_min: u8,
         lg_config_k: u8,
-        _compact: bool,
+        lg_aux_arr: u8,
+        compact: bool,
         ooo: bool,
     ) -> Result<Self, Error> {
         let num_bytes = 1 << (lg_config_k - 1); // k/2 bytes for 4-bit packing
@@ -341,16 +344,38 @@ impl Array4 {
         // Read aux map if present
         let mut aux_map = None;
         if aux_count > 0 {
+            // A compact image stores the aux_count pairs back to back; an updatable image
+            // stores the whole 2^lg_aux_arr-slot aux table, empty slots included.
+            let num_stored = if compact {
+                aux_count as usize
+            } else {
+                if lg_aux_arr as u32 > KEY_BITS_26 {
+                    return Err(Error::deserial(format!(
+                        "invalid aux array size: lg_aux_arr {lg_aux_arr}"
+                    )));
+                }
+                1usize << lg_aux_arr
+            };
             let mut aux = AuxMap::new(lg_config_k);
-            for i in 0..aux_count {
+            let mut num_read = 0u32;
+            for i in 0..num_stored {
                 let coupon = cursor.read_u32_le().map_err(|_| {
                     Error::insufficient_data(format!(
-                        "expected {aux_count} aux coupons, failed at index {i}",
+                        "expected {num_stored} aux slots, failed at index {i}",
                     ))
                 })?;
+                if !compact && coupon == 0 {
+                    continue;
+                }
                 let slot = get_slot(coupon) & ((1 << lg_config_k) - 1);
                 let value = get_value(coupon);
                 aux.insert(slot, value);
+                num_read += 1;
+            }
+            if num_read != aux_count {
+                return Err(Error::deserial(format!(
+                    "aux table holds {num_read} entries, header says {aux_count}"
+                )));
             }
             aux_map = Some(aux);
         }
@@ -396,8 +421,9 @@ impl Array4 {
         bytes.write_u8(lg_config_k);
         bytes.write_u8(0); // unused for HLL mode
 
-        // Write flags
-        let mut flags = 0u8;
+        // Write flags. The aux section below is the compact list of pairs, so this is a
+        // compact image (an updatable one would carry the whole aux table).
+        let mut flags = COMPACT_FLAG_MASK;
         if self.estimator.is_out_of_order() {
             flags |= OUT_OF_ORDER_FLAG_MASK;
         }
